@@ -204,9 +204,25 @@ def jsonpath_literal(s: str) -> str:
 
 _DOUBLED = _stdre.compile(r"\[[^\]]*?(&&|\|\||~~)")
 _OPNAME = {"&&": "ampersand", "||": "pipe", "~~": "tilde"}
-_NEG1 = r"\[\^(?:\\[pP]\{\w+\}|\\.|[^\]\\])\]"
-# two adjacent alternation branches that are each exactly a negated one-item class
-_NEG_ALT = _stdre.compile(r"(?:^|[|(])" + _NEG1 + r"\|" + _NEG1 + r"(?:$|[|)])", _stdre.S)
+
+
+def _alternation_of_negated_single_literal_classes(ast) -> bool:  # noqa: ANN001
+    """Some alternation has two or more branches that are each exactly [^c], c one literal character."""
+    tag = ast[0]
+    if tag == "alt":
+        n = 0
+        for br in ast[1]:
+            pieces = br[1]
+            if len(pieces) == 1 and pieces[0][0] == "set" and pieces[0][1] and len(pieces[0][2]) == 1 and pieces[0][2][0][0] == "c":
+                n += 1
+        if n >= 2:
+            return True
+        return any(_alternation_of_negated_single_literal_classes(br) for br in ast[1])
+    if tag == "cat":
+        return any(_alternation_of_negated_single_literal_classes(p) for p in ast[1])
+    if tag == "rep" or tag == "group":
+        return _alternation_of_negated_single_literal_classes(ast[1])
+    return False
 
 
 def _dot_outside_class(p: str) -> bool:
@@ -235,7 +251,8 @@ def classify(p: str, s: str, m_ref: bool, m_obs: bool, s_ref: bool, s_obs: bool)
         if m_ok != s_ok:
             return "c11-search-match-disagree-on-class-with-" + op
         return "c11-both-wrong-on-class-with-" + op
-    if _NEG_ALT.search(p):
+    ast = iregexp.parse(p)
+    if ast is not None and _alternation_of_negated_single_literal_classes(ast):
         return "c11-alternation-of-negated-single-char-classes"
     has_nl = LF in s or CR in s
     too_many = (m_obs and not m_ref) or (s_obs and not s_ref)
